@@ -1,5 +1,6 @@
 import Juniper.Driver.Basic
 import Juniper.Driver.C04
+import Juniper.Driver.C17
 import Juniper.Driver.C20
 /-! `driver <model>`: runs one executable model behind the line protocol. Core-only (no Mathlib).
 Registration: one `import` line above and one `[("name", handler)],` line below per model
@@ -8,6 +9,7 @@ open Juniper.Driver
 
 def handlers : List (String × Handler) := List.flatten [
   [("deque", Juniper.Driver.C04.handler)],
+  [("group", Juniper.Driver.C17.handler)],
   [("xtime", Juniper.Driver.C20.handler)],
   []]
 
